@@ -21,6 +21,8 @@ def val(vs, objs=None):
     E = env.load()
     k = vs[0]
     if k == "q":
+        if len(vs) > 3 and isinstance(vs[3], dict) and "source" in vs[3]:
+            return E.SourceValue(vs[1] * E.u(vs[2]), E.Source(vs[3]["source"][0], vs[3]["source"][1]))
         return E.SourceValue(vs[1] * E.u(vs[2]))
     if k == "h":
         return E.create_source_hourly_values_from_list(list(vs[1]), datetime.fromisoformat(vs[2]), E.u(vs[3]) if len(vs) > 3 else E.u.dimensionless)
